@@ -79,18 +79,26 @@ def ext_game(shape, complex_=True, functional=False):
 
 
 # ---- unentangled value ------------------------------------------------------------------------------
-def ob_unentangled(shape):
-    """all entries of the distribution and of the referee operators are symbolic; lambda_max is the LAPACK kernel (uninterpreted)"""
+def ob_unentangled(shape, solver_max=False):
+    """all entries of the distribution and of the referee operators are symbolic; lambda_max is the LAPACK kernel (uninterpreted).
+    solver_max: the running `max(max_unent_val, unent_val)` of the code is a definitional max symbol instead of a forking
+    comparison, so that games with 16 strategy pairs stay one path"""
     from symnp.array import SymArray
+    from props.c07 import _LazyMax, _solver_max
     A, B, X, Y = shape
     cfg = {"referee_dim": 2, "shape_A_B_X_Y": list(shape)}
+    if solver_max:
+        cfg["running_max"] = "definitional max symbol"
 
     def build(b):
         return {"p": b.array("p", (X, Y), "r"), "V": b.array("V", (2, 2, A, B, X, Y), "c")}
 
     def call(i):
         g = ExtendedNonlocalGame(i["p"], i["V"])
-        return [g.unentangled_value(), np.asarray(g.prob_mat), np.asarray(g.pred_mat)]
+        val = g.unentangled_value()
+        if isinstance(val, _LazyMax):
+            val = val.force()
+        return [val, np.asarray(g.prob_mat), np.asarray(g.pred_mat)]
 
     def oracle(i):
         return None
@@ -128,9 +136,20 @@ def ob_unentangled(shape):
         for x, y in itertools.product(range(X), range(Y)):
             V[0, 0, x % A, (y + 1) % B, x, y] = 1        # only question-dependent answers win
         out.append({"p": np.full((X, Y), 1.0 / (X * Y)), "V": V})
+        if (A, B, X, Y) == (2, 2, 2, 2):
+            # "answers must agree" game (invariant under exchanging the two ANSWERS) on the question pairs (0,1), (1,0) only,
+            # scored so that the unique optimum is f = (1, 0), g = (0, 1): not invariant under exchanging the players
+            V = np.zeros((2, 2, 2, 2, 2, 2), dtype=complex)
+            for a in range(2):
+                for x, y in ((0, 1), (1, 0)):
+                    V[:, :, a, a, x, y] = 0.2 * np.eye(2)
+            V[:, :, 1, 1, 0, 1] = np.eye(2)
+            V[:, :, 0, 0, 1, 0] = np.eye(2)
+            out.append({"p": np.array([[0, 0.5], [0.5, 0]]), "V": V})
         return out
     return Obligation("unentangled_value.is_max_over_all_answer_function_pairs_of_lambda_max", cfg, build, call, oracle, post=post, witness=witness,
-                      objzeros=(ENG,), max_paths=1024, neg_control=False, tv=False, weight=40)
+                      objzeros=(ENG,), max_paths=1024, neg_control=False, tv=False, weight=40,
+                      extra_patch={ENG: {"max": _solver_max}} if solver_max else None)
 
 
 # ---- NPA with referee ----------------------------------------------------------------------------------
@@ -441,6 +460,8 @@ def core_not(b):
 def clone_states(kind):
     if kind == "bb84":
         return [np.array([[1.0], [0]]), np.array([[0.0], [1]]), np.array([[0.5], [0.5]]), np.array([[0.5], [-0.5]])], [0.25] * 4
+    if kind == "real first, complex second":     # mixed storage: the first ket is a float array
+        return [np.array([[1.0], [0.5]]), np.array([[0.5], [0.25 - 0.5j]])], [0.25, 0.75]
     return [np.array([[1], [0.5j]]), np.array([[0.5], [0.25 - 0.5j]])], [0.75, 0.25]
 
 
@@ -619,6 +640,8 @@ def obligations(tier):
     obs = []
     for sh in [(2, 2, 1, 2), (2, 2, 2, 1), (2, 3, 1, 1), (3, 2, 1, 1)] + ([(3, 3, 1, 1)] if T else []):
         obs.append(ob_unentangled(sh))
+    for sh in [(2, 2, 2, 2), (2, 2, 1, 1)] + ([(3, 3, 1, 1), (2, 3, 2, 1)] if T else []):
+        obs.append(ob_unentangled(sh, solver_max=True))
     for sh in [(2, 2, 2, 2), (2, 2, 1, 2)] + ([(2, 3, 2, 2)] if T else []):
         for k in [1, "1+ab"] + ([2] if T else []):
             obs.append(ExtNpaTask(sh, k, "unent_le_npa"))
@@ -667,7 +690,7 @@ def obligations(tier):
                 t.weight = 25 * n
                 obs.append(t)
     # cloning
-    for kind in ("bb84", "complex pair"):
+    for kind in ("bb84", "complex pair", "real first, complex second"):
         st, pr = clone_states(kind)
         for n in ([1, 2] if T else [1]):
             for form, strat in (("primal", True), ("dual", False)):
